@@ -510,3 +510,119 @@ func genTinyK(idx int, r *rand.Rand) *History {
 	h.Note = fmt.Sprintf("tinykeys late=%v: %s", late, strings.Join(names, " ; "))
 	return h
 }
+
+// ---- layered decoration blocks (C16, C12): a family the random profiles reach too rarely -------------------
+//
+// genDecoBlock draws one history of the family "a value group decorated at several levels of a scope chain and
+// consumed from several levels": a chain of 3-4 scopes (sometimes with a side branch), 1-3 feeders of group G in
+// the upper scopes, group decorators of G in two or three distinct scopes of the chain, 2-4 consumers of G
+// (constructors, at random levels, exported or not) that each feed a second group H or provide a named value, a
+// plain value or two, and then Invokes from the deepest scope first (H, the named values) and from every scope
+// (G). Registration order is random; the differential C16 runner permutes it again.
+func genDecoBlock(r *rand.Rand) *History {
+	h := &History{}
+	h.Opts.Defer = r.Intn(4) == 0
+	h.Opts.Recover = r.Intn(2) == 0
+	h.Opts.RandSeed = r.Int63n(1 << 30)
+	h.Opts.OptOrder = r.Int63n(1 << 30)
+	depth := 3 + r.Intn(2)
+	parent := []int{-1}
+	for i := 1; i < depth; i++ {
+		parent = append(parent, i-1)
+	}
+	if r.Intn(3) == 0 {
+		parent = append(parent, r.Intn(depth-1)) // a side branch
+	}
+	G := Key{T: 0, Group: "g1"}
+	H := Key{T: 1, Group: "g2"}
+	type reg struct {
+		op Op
+	}
+	var regs []Op
+	newFn := func(params []Param, results []Res) *Fn {
+		f := &Fn{ID: len(h.Fns), Params: params, Results: results}
+		h.Fns = append(h.Fns, f)
+		return f
+	}
+	// feeders of G
+	for i, n := 0, 1+r.Intn(3); i < n; i++ {
+		res := []Res{{K: G}}
+		if r.Intn(4) == 0 {
+			res = []Res{{K: G, Flatten: true, N: 1 + r.Intn(2)}}
+		}
+		f := newFn(nil, res)
+		regs = append(regs, Op{Kind: OpProvide, Scope: r.Intn(2), Fn: f.ID})
+	}
+	// decorators of G in distinct scopes of the chain
+	nd := 2
+	if depth > 3 && r.Intn(2) == 0 {
+		nd = 3
+	}
+	for _, s := range r.Perm(depth)[:nd] {
+		var params []Param
+		if r.Intn(5) > 0 {
+			params = []Param{{K: G}}
+		}
+		f := newFn(params, []Res{{K: G, Whole: true, N: 1 + r.Intn(2)}})
+		regs = append(regs, Op{Kind: OpDecorate, Scope: s, Fn: f.ID})
+	}
+	// consumers of G
+	var named []Key
+	for i, n := 0, 2+r.Intn(3); i < n; i++ {
+		var res []Res
+		if r.Intn(3) > 0 {
+			res = []Res{{K: H}}
+		} else {
+			k := Key{T: 2, Name: fmt.Sprintf("c%d", i)}
+			named = append(named, k)
+			res = []Res{{K: k}}
+		}
+		f := newFn([]Param{{K: G}}, res)
+		s := r.Intn(len(parent))
+		regs = append(regs, Op{Kind: OpProvide, Scope: s, Fn: f.ID, Export: s > 0 && r.Intn(2) == 0})
+	}
+	// a plain value somewhere in the middle
+	plain := Key{T: 3}
+	regs = append(regs, Op{Kind: OpProvide, Scope: 1, Fn: newFn(nil, []Res{{K: plain}}).ID})
+	// scopes are created up front half of the time, otherwise right before they are first needed
+	created := 1
+	index := map[int]int{0: 0}
+	var mk func(s int)
+	mk = func(s int) {
+		if _, ok := index[s]; ok {
+			return
+		}
+		mk(parent[s])
+		h.Ops = append(h.Ops, Op{Kind: OpScope, Scope: index[parent[s]]})
+		index[s] = created
+		created++
+	}
+	if r.Intn(2) == 0 {
+		for s := range parent {
+			mk(s)
+		}
+	}
+	r.Shuffle(len(regs), func(i, j int) { regs[i], regs[j] = regs[j], regs[i] })
+	for _, op := range regs {
+		mk(op.Scope)
+		op.Scope = index[op.Scope]
+		h.Ops = append(h.Ops, op)
+	}
+	for s := range parent {
+		mk(s)
+	}
+	invoke := func(s int, params ...Param) {
+		f := newFn(params, nil)
+		h.Ops = append(h.Ops, Op{Kind: OpInvoke, Scope: index[s], Fn: f.ID})
+	}
+	deepest := depth - 1
+	invoke(deepest, Param{K: H}, Param{K: plain, Optional: true})
+	for _, k := range named {
+		invoke(deepest, Param{K: k, Optional: true})
+	}
+	for s := len(parent) - 1; s >= 0; s-- {
+		invoke(s, Param{K: G})
+	}
+	invoke(0, Param{K: H})
+	return h
+}
